@@ -69,8 +69,40 @@ def f14_program():
     return base, ("un", o, (("sql", 0), True, False, False), base), ("un", o, mp.DEFAULT, base)
 
 
+def order_sensitive(rng, counter):
+    """Iteration engines only (row order is exact): an order- or count-sensitive operation downstream of the transfer,
+    then an operation that must not move past it — a slice above a sort / selection / deduplication, a sort above a
+    sort or slice, a deduplication or selection above a slice."""
+    src, mid = rng.sample([("it", 0), ("it", 1)], 2)
+    cols = gen.gen_schema(rng, maxk=2, maxn=1, allow_empty=False)
+    counter[0] += 1
+    leaf = mp.gen_leaf(rng, counter[0], cols, src, special=0, loose=0)
+    cur = set(leaf[3])
+    p = ("xfer", mid, leaf)
+    c = rng.choice(sorted(cur))
+    blockers = [("sort", [(("ref", c), rng.random() < 0.5)]), ("slice", rng.choice([0, 1]), rng.choice([2, 3, None])),
+                ("sel", ("cmp", rng.choice(["gt", "le"]), ("ref", c), ("lit", 1))), ("dedup",)]
+    blocker = rng.choice(blockers)
+    if blocker == ("slice", 0, None):
+        blocker = ("slice", 1, None)
+    p = ("un", blocker, mp.DEFAULT, p)
+    for _ in range(rng.choice([0, 0, 1])):
+        o, cur = gen.gen_op(rng, cur, weights=[2, 0, 2, 0, 0, 0])      # calculations / projections in between
+        p = ("un", o, mp.DEFAULT, p)
+    movers = [("slice", rng.choice([0, 1]), rng.choice([1, 2, 3])), ("dedup",)]
+    if cur:
+        c2 = rng.choice(sorted(cur))
+        movers += [("sort", [(("ref", c2), rng.random() < 0.5)]), ("sel", ("cmp", "ge", ("ref", c2), ("lit", 1)))]
+    return p, cur, src, rng.choice(movers)
+
+
 def make_programs(rng, n):
     out = [f2_program(), f14_program()]
+    for _ in range(n // 4):
+        counter = [0]
+        base, cur, src, o = order_sensitive(rng, counter)
+        for bt, tr, rq in rng.sample(ALL_OPTS, 2) + [(True, False, False)]:
+            out.append((base, ("un", o, (src, bt, tr, rq), base), ("un", o, mp.DEFAULT, base)))
     for _ in range(n):
         counter = [0]
         if rng.random() < 0.7:
